@@ -608,8 +608,8 @@ func c08GoLex(src string) (rendered string, toks []syntax.VerifTok, pos int, pan
 }
 
 // c08TokNames: id -> name of the token constants of grammar.go as regenerated into Gen.tokIds
-// (driver op C08.tokids).  (syntax.VerifTokenName indexes mmToknames with id-mmPrivate+1, which
-// is right only up to INVALID: goyacc lists the character literals of the grammar in between.)
+// (driver op C08.tokids); checked against syntax.VerifTokenName (mmTok2/mmToknames) at the start of
+// c08TokenStream.
 var c08TokNames map[int]string
 
 func c08TokName(id int) string {
@@ -748,6 +748,14 @@ func c08TokenStream(c *Ctx) {
 			if id, err := strconv.Atoi(nv[1]); err == nil {
 				c08TokNames[id] = nv[0]
 			}
+		}
+	}
+	// the regenerated token constants against the names the generated parser itself uses
+	for id, nm := range c08TokNames {
+		if g := syntax.VerifTokenName(id); g != nm {
+			r.violate(Violation{Kind: "correspondence", Key: "C08:token-id-table-mismatch",
+				What:  "a token constant regenerated from grammar.go (Gen.tokIds) is not the token the generated parser knows under that number (mmTok2/mmToknames)",
+				Input: fmt.Sprintf("%s = %d", nm, id), Impl: g, Model: nm, Broken: "fact Gen.tokIds"})
 		}
 	}
 	streams := c08GenStreams(c, n)
